@@ -262,7 +262,7 @@ pub const SIG_ERR_KINDS: [&str; 11] = [
     "MalformedQueryString",
     "MissingAuthenticationToken",
 ];
-pub const FOREIGN_KINDS: [&str; 8] = ["io::Error", "HarnessError", "String", "SignatureError::IO", "SignatureError::Internal", "SignatureError::IO/TimedOut", "SignatureError::IO/NotFound", "SignatureError::IO/Interrupted"];
+pub const FOREIGN_KINDS: [&str; 9] = ["io::Error", "HarnessError", "String", "SignatureError::IO", "SignatureError::Internal", "SignatureError::IO/TimedOut", "SignatureError::IO/NotFound", "SignatureError::IO/Interrupted", "KeyTooLongError"];
 
 #[derive(Debug)]
 pub struct HarnessError(pub String);
@@ -293,6 +293,8 @@ pub fn make_provider_error(a: &Answer, val: usize) -> BoxError {
             "io::Error" => Box::new(std::io::Error::new(std::io::ErrorKind::TimedOut, msg)),
             "HarnessError" => Box::new(HarnessError(msg)),
             "String" => msg.into(),
+            // the crate's own KeyTooLongError (a key store that propagates `KSecretKey::from_str(..)?`)
+            "KeyTooLongError" => Box::new(scratchstack_aws_signature::KeyTooLongError),
             // the status is fixed by the kind of SignatureError, not by what the io::Error inside says
             "SignatureError::IO" => Box::new(SignatureError::IO(std::io::Error::new(std::io::ErrorKind::BrokenPipe, msg))),
             "SignatureError::IO/TimedOut" => Box::new(SignatureError::IO(std::io::Error::new(std::io::ErrorKind::TimedOut, msg))),
@@ -313,6 +315,9 @@ pub struct ProvScript {
     pub answer_pending: u32,
     pub answer_wake: WakeMode,
     pub answer: Answer,
+    /// real milliseconds the provider blocks before answering (fixed sweep only: the library must
+    /// not consult a real clock, so real provider latency must not change any outcome)
+    pub real_sleep_ms: u64,
 }
 
 impl Default for ProvScript {
@@ -324,6 +329,7 @@ impl Default for ProvScript {
             answer_pending: 0,
             answer_wake: WakeMode::Immediate,
             answer: Answer::Normal,
+            real_sleep_ms: 0,
         }
     }
 }
@@ -618,6 +624,11 @@ impl Future for ProvFuture {
             return Poll::Pending;
         }
         this.resolved = true;
+        if this.script.real_sleep_ms > 0 {
+            drop(sh);
+            std::thread::sleep(std::time::Duration::from_millis(this.script.real_sleep_ms));
+            sh = this.shared.lock().unwrap();
+        }
         let req = this.req.take().expect("provider future polled after completion");
         let looked = keystore_lookup(&sh.accounts, req.access_key(), req.session_token(), &this.script.answer)
             .map(|(a, s)| (a.clone(), s.to_string()));
@@ -1192,6 +1203,7 @@ pub fn validate_control(req: Request<Bytes>, node: &Node, now_ns: i128, accounts
             answer_pending: 0,
             answer_wake: WakeMode::Immediate,
             answer: script.answer.clone(),
+            real_sleep_ms: 0,
         });
     }
     let mut t = Tape::replay(vec![]);
